@@ -18,7 +18,7 @@ EXPLANATION = (
     "the Some edge of tree_init; (c) LLFree::new passes tree_init = None exactly when init == Init::None; (d) Locals::new reaches no "
     "write primitive. R-NEW-ERRS: the Err returns of LLFree::new are exactly: valid() failed, Lower::new failed, Locals::new failed. "
     "R-META-ROUNDTRIP: LLFree::metadata() fills MetaData{local,trees,lower} from Locals/Trees/Lower::metadata() respectively, each of "
-    "which rebuilds its slice with the length function that new() checked."
+    "which rebuilds its slice with the length function that new() checked. R-STATE-IN-META: the instance structs (LLFree, Lower, Trees, Locals) hold only references into the three buffers and plain values fixed at construction - no atomic, cell or lock by value, and no &mut self method besides metadata() - so there is no allocator state that metadata() cannot hand over."
 )
 
 NEW = "<llfree::llfree::LLFree as llfree::Alloc>::new"
@@ -281,8 +281,50 @@ def r_meta_roundtrip(rep, prog):
               "Lower::new's length guard (%s) does not match metadata_size (%s)" % (T.show(guard) if guard else "?", T.show(ret[0]) if ret else "?"), lb.span)
 
 
+def r_state_in_meta(rep, prog):
+    """All mutable state of an allocator lives in the three metadata buffers: the instance structs hold references into the
+    buffers and plain values fixed at construction, nothing with interior mutability by value (an atomic cursor, a cell, a lock).
+    State kept in the instance cannot be handed over through metadata() / Init::None."""
+    rule = "R-STATE-IN-META"
+    rep.rule(rule, "LLFree, Lower, Trees, Locals hold only references into the metadata buffers and immutable plain values")
+    adts = prog.crate("llfree").adts
+    MUT = ("Atomic", "atomic::Atom<", "Cell<", "UnsafeCell", "Mutex", "RwLock", "Once", "RefCell")
+    n = 0
+    for name in ("llfree::llfree::LLFree", "llfree::lower::Lower", "llfree::trees::Trees", "llfree::local::Locals"):
+        a = adts.get(name)
+        if a is None:
+            rep.violation(rule, "%s|adt" % name, "struct not found", None)
+            continue
+        for f in a["variants"][0]["fields"]:
+            n += 1
+            ty = f["ty"]
+            by_ref = ty.startswith("&")
+            nested = ty.split("<")[0].split("::")[-1] in ("Locals", "Lower", "Trees")
+            bad = (not by_ref) and (not nested) and any(m in ty for m in MUT)
+            rep.check(not bad, rule, "%s|field|%s" % (name.split("::")[-1], f["name"]),
+                      "%s: %s" % (f["name"], "reference into a metadata buffer" if by_ref else ("checked struct" if nested else "plain value")),
+                      "%s.%s has type %s: mutable state inside the instance, outside the metadata buffers - an allocator rebuilt with "
+                      "Init::None from copies of the buffers does not have it and can answer later calls differently" % (
+                          name.split("::")[-1], f["name"], ty))
+    rep.floor(rule, "instance fields", n, 6)
+    # and nothing mutates the plain fields after construction: no `&mut self` method besides metadata()
+    for bname, body in sorted(prog.crate("llfree").bodies.items()):
+        if "{closure" in bname or body.arg_count < 1:
+            continue
+        owner = bname.rsplit("::", 1)[0]
+        if owner not in ("llfree::llfree::LLFree", "llfree::lower::Lower", "llfree::trees::Trees", "llfree::local::Locals",
+                         "<llfree::llfree::LLFree as llfree::Alloc>"):
+            continue
+        t0 = body.local_ty(1)
+        if t0.startswith("&mut ") and any(t0.startswith("&mut " + x) or t0.startswith("&mut %s" % x) for x in ("llfree::LLFree", "lower::Lower", "trees::Trees", "local::Locals", "Self")):
+            meth = bname.rsplit("::", 1)[-1]
+            rep.check(meth == "metadata", rule, "%s|mut-self" % bname, "only metadata() takes &mut self",
+                      "%s takes &mut self: instance fields can change after construction" % bname, body.span)
+
+
 def run(rep, programs):
     prog = programs["core"]
     r_nowrite_none(rep, prog)
     r_new_errs(rep, prog)
     r_meta_roundtrip(rep, prog)
+    r_state_in_meta(rep, prog)
